@@ -470,7 +470,7 @@ def src_list_ParseRPush : CmdSrc :=
     methods := ["Error", "List", "PushBack", "WriteError", "WriteInt"],
     writes := ["WriteError", "WriteInt"] }
 
-def parseText_server_ParseConfig : String := "func ParseConfig(v0 redis.BaseCmd) (Config, error) { v1 := Config{BaseCmd: v0} if len(v1.Args()) == 0 { return Config{}, redis.ErrInvalidArgNum } v1.subcmd = string(v1.Args()[0]) var v2 error v3 := v1.Args()[1:] switch v1.subcmd { case \"get\": v1.get, v2 = ParseConfigGet(v3) default: v2 = redis.ErrUnknownSubcmd } if v2 != nil { return Config{}, v2 } return v1, nil }"
+def parseText_server_ParseConfig : String := "func ParseConfig(v0 redis.BaseCmd) (Config, error) { v1 := Config{BaseCmd: v0} if len(v1.Args()) == 0 { return Config{}, redis.ErrInvalidArgNum } v1.subcmd = strings.ToLower(string(v1.Args()[0])) var v2 error v3 := v1.Args()[1:] switch v1.subcmd { case \"get\": v1.get, v2 = ParseConfigGet(v3) default: v2 = redis.ErrUnknownSubcmd } if v2 != nil { return Config{}, v2 } return v1, nil }"
 def runText_server_ParseConfig : String := "func (v0 Config) Run(v1 redis.Writer, v2 redis.Redka) (any, error) { switch v0.subcmd { case \"get\": return v0.get.Run(v1, v2) default: v1.WriteString(\"OK\") return true, nil } }"
 /-- `server.ParseConfig` -/
 def src_server_ParseConfig : CmdSrc :=
